@@ -352,6 +352,20 @@ class BuiltinsMixin(object):
             f = self.prog.method(cb, RDUNDER[sym])
             if f is not None:
                 return self.call_value(Bound(b, FRef(f)), [a], [], path, node)
+        # lists:  xs += ys  extends xs in place;  xs + ys  is a new list
+        if sym == '+' and isinstance(a, Obj) and \
+                path.heap[a.oid].kind == 'list':
+            if inplace:
+                self.container_method(a, 'extend', [b], path, node)
+                return [(path, a)]
+            o = path.alloc('list', site=node)
+            path.heap[o.oid].parts = list(path.heap[a.oid].parts)
+            self.container_method(o, 'extend', [b], path, node)
+            return [(path, o)]
+        if sym == '+' and inplace and isinstance(a, (Sym, App)) and \
+                self.is_setlike(a, path):
+            self.event(path, 'mutate', a, 'extend', (b,), node)
+            return [(path, a)]
         # sets
         if sym in ('|', '&', '-', '^') and (
                 self.is_setlike(a, path) or self.is_setlike(b, path)):
@@ -1068,6 +1082,20 @@ class BuiltinsMixin(object):
         return out
 
     def call_value(self, fv, args, kw, path, node):
+        # x.add(a if c else b): the conditional value given to a mutator is
+        # decided first (two paths), so that what is stored is a definite
+        # value on each of them
+        if isinstance(fv, (BoundB, Bound)) and \
+                (fv.name if isinstance(fv, BoundB) else fv.f.fi.name) in \
+                MUTATORS:
+            for i, a in enumerate(args):
+                if isinstance(a, App) and a.op == 'ite':
+                    out = []
+                    for (q, tr) in self.branch(a.args[0], path):
+                        a2 = list(args)
+                        a2[i] = a.args[1] if tr else a.args[2]
+                        out.extend(self.call_value(fv, a2, kw, q, node))
+                    return out
         r = self.hooks.call(self, fv, args, kw, path, node)
         if r is not None:
             return r
@@ -1080,6 +1108,30 @@ class BuiltinsMixin(object):
                                    self.snapshot_deep(fv.recv, path),
                                    self.snapshot_deep(args[0].args[0],
                                                       path)))]
+            if isinstance(fv, BoundB) and isinstance(fv.recv, Obj) and \
+                    path.heap[fv.recv.oid].kind in ('set', 'list', 'dict'):
+                h = path.heap[fv.recv.oid]
+                if fv.name == 'update' and h.kind == 'set' and \
+                        len(args) == 1 and not kw:
+                    # s.update(*XS): every member of every X of XS
+                    src = args[0].args[0]
+                    if isinstance(src, App) and src.op == 'gen' and \
+                            isinstance(src.args[0], Obj):
+                        src = src.args[0]
+                    srcs = self.snapshot_deep(src, path)
+                    var = path.fresh('e', None, meta=('elem', srcs))
+                    gens = path.loops[h.loops_len:]
+                    h.parts.append(Part(
+                        'spread', var,
+                        gens=[(l.var, l.iterable) for l in gens] +
+                        [(var, srcs)],
+                        conds=tuple(path.pc[h.pc_len:]) if gens else ()))
+                    return [(path, Const(None))]
+                if fv.name in MUTATORS:
+                    # a container modified through *args in a way that is
+                    # not modelled: never a silently lost update
+                    self.inconclusive('%s(*...) on a %s' % (fv.name, h.kind),
+                                      node)
             self.event(path, 'call', fv, None, (tuple(args), tuple(kw)), node)
             return [(path, App('call', fv, Tup(args)))]
         if isinstance(fv, FRef):
